@@ -104,6 +104,12 @@ CLAIMED = {
             "bit-identical and numpy.random.get_state() unchanged across integer-seeded calls; seed-free functions must repeat "
             "exactly. Vacuity guard: the output must change with seed+1 (counted).",
             "Bitwise comparison of every array reachable from the return value.", "DESIGN.md §2 C16"),
+    "C18": ("dtype tracer on every array reachable from return values",
+            "88 entry points (tensor algebra, conversions/transforms, SVD routes, 28 decomposition configurations, 14 proximal operators, "
+            "NNLS/ADMM solvers, regressors, random generators, preprocessing, metrics) are called with float32, float64 and (where "
+            "conjugation is handled) complex128 inputs over seeded shapes/options; every floating array or NumPy scalar reachable "
+            "from the result must carry the input dtype (singular values of complex input may be real). Sampled.",
+            "Documented exemptions only (leverage scores float64, integer outputs, Python floats).", "DESIGN.md §2 C18"),
 }
 
 PENDING_REASON = "check not built yet in this session; see DESIGN.md §2 for the planned monitor"
